@@ -1508,7 +1508,12 @@ def _derived(T, P, notes):
                                 P.append("glyf: glyph %d (composite with transformed components) header bbox %r, transformed control-point bbox %r (+-1 allowed)" % (gid, bx, tuple(float(v) for v in lo)))
                         else:
                             if bx != lo:
-                                P.append("glyf: glyph %d (composite) header bbox %r, bbox of its component points %r" % (gid, bx, lo))
+                                hint = ""
+                                for c in g["components"]:
+                                    cg = glyphs[c["gid"]]
+                                    if cg is not None and cg["nc"] != 0 and cg["bbox"][0] == cg["bbox"][2] and cg["bbox"][1] == cg["bbox"][3]:
+                                        hint = " [has a component whose own bbox is a single point]"
+                                P.append("glyf: glyph %d (composite) header bbox %r, bbox of its component points %r%s" % (gid, bx, lo, hint))
                     else:
                         notes.append("glyf:composite-without-points")
                         if bx != (0, 0, 0, 0):
@@ -1836,7 +1841,7 @@ def cff_bounds(cff):
         lsubrs, dw, nw = privs[sel[gid]]
         try:
             r = ref_t2.run(bytes(prog), lsubrs=[bytes(x) for x in lsubrs], gsubrs=[bytes(x) for x in gsubrs], fmt="cff", default_width=dw, nominal_width=nw)
-        except (ref_t2.T2Error, IndexError, struct.error, RecursionError) as e:
+        except Exception as e:  # the reference interpreter gave up: the bounds are then not asserted (visible as a note)
             info["skip"] = "charstring-%d-not-interpretable" % gid
             return info
         if r.problems:
